@@ -13,7 +13,8 @@ LEVEL = "exploration"
 RULE = ("complete walk of dateparser.timezones.timezone_info_list read as data: every supported UTC offset "
         "x 8 spellings and every abbreviation (upper and lower case) appended to date-time bodies "
         "(quick: 1 body, thorough: 3 bodies + the JavaScript '(ABBR)' tail), languages=['en'] and "
-        "autodetection; oracle: aware, utcoffset == listed offset (first listing wins), wall clock == "
+        "autodetection, then a primed pass (each case right after a call that found an overlapping zone spelling: UTC/GMT, the bare "
+        "spelling of the same offset, the tail's abbreviation); oracle: aware, utcoffset == listed offset (first listing wins), wall clock == "
         "body, pickle/deepcopy round trip equal in value, offset and tzname. Naivety: every corpus "
         "string in which no table regex matches must parse naive. non-trivial distinct = distinct "
         "(table entry, spelling, body, mode) whose zone was popped by pop_tz_offset_from_string (tap).")
@@ -102,12 +103,32 @@ def install_tap():
                  ("dateparser.languages.locale", "pop_tz_offset_from_string")])
 
 
-def check_case(ctx, case, mode):
+def primer_for(case, n):
+    """A zone-bearing string parsed right before the case in the primed pass: an abbreviation that is a prefix of the
+    offset spellings, the bare spelling of the same offset, the abbreviation named in the tail, or an unrelated zone."""
+    kind, entry, spn, spelled, off, bi, tail = case
+    body = BODIES[bi][0]
+    choices = ["UTC", "GMT", "utc", "EST", "+0000"]
+    if kind == "offset":
+        sp = spellings(entry)
+        choices += [sp["+HHMM"], sp["+HH:MM"], sp["UTC+HHMM"]]
+    if tail:
+        choices += [tail.strip(" ()")] * 2
+    return body + " " + choices[n % len(choices)]
+
+
+def check_case(ctx, case, mode, primer=None):
     import dateparser
 
     kind, entry, spn, spelled, off, bi, tail = case
     body, exp = BODIES[bi]
     s = body + " " + spelled + tail
+    if primer is not None:
+        try:
+            dateparser.parse(primer, languages=["en"]) if mode == "en" else dateparser.parse(primer)
+        except Exception:
+            ctx.count("primer:raised(C02's subject)")
+        ctx.count("primed_cases")
     del _POP[:]
     try:
         r = dateparser.parse(s, languages=["en"]) if mode == "en" else dateparser.parse(s)
@@ -116,7 +137,7 @@ def check_case(ctx, case, mode):
     ctx.ran()
     popped = [p for p in _POP if p is not None]
     cj = {"kind": kind, "entry": entry, "spelling": spn, "string": s, "mode": mode, "body": bi, "tail": tail,
-          "offset_s": off}
+          "offset_s": off, "primer": primer}
     want = timedelta(seconds=off)
     why = None
     if not isinstance(r, datetime):
@@ -145,7 +166,7 @@ def check_case(ctx, case, mode):
                        "tail": bool(tail)})
         return
     if popped:
-        ctx.nontrivial(kind, entry, spn, bi, tail, mode)
+        ctx.nontrivial(kind, entry, spn, bi, tail, mode, primer)
         ctx.count("popped_ok")
     else:
         ctx.count("off_path:not-popped-yet-correct")
@@ -164,6 +185,11 @@ def run_shard(ctx, desc):
                 check_case(ctx, c, "en")
                 check_case(ctx, c, "auto")
                 ctx.count("entries:%s" % c[0])
+            # primed pass: the same cases, each right after a call that found another (overlapping) zone spelling
+            for n, c in enumerate(cases):
+                if c[0] == "abbr" and ctx.tier == "quick" and n % 3:
+                    continue
+                check_case(ctx, c, "en" if n % 2 else "auto", primer=primer_for(c, n // 2 + ctx.seed))
         else:
             run_naive(ctx, desc)
     finally:
@@ -233,6 +259,6 @@ def replay_case(ctx, v):
         return
     for case in all_cases("thorough"):
         if (case[0], case[1], case[2], case[5], case[6]) == (c["kind"], c["entry"], c["spelling"], c["body"], c["tail"]):
-            check_case(ctx, case, c["mode"])
+            check_case(ctx, case, c["mode"], primer=c.get("primer"))
             return
     raise SystemExit("case not found in the current table")
